@@ -50,7 +50,10 @@ def strategy(draw, tier="quick"):
             "late_bond": draw(st.integers(0, 4)) == 0,
             # the coordinate array of the trajectory is a view into a larger buffer (as after md.load of some formats, or
             # Trajectory(buf[1:], ...)), not an array that owns its memory
-            "xyz_view": draw(st.integers(0, 3)) == 0}
+            "xyz_view": draw(st.integers(0, 3)) == 0,
+            # the bonds handed over explicitly, in a valid placement order (every bond's first atom already placed) that starts
+            # each molecule at an arbitrary atom - not necessarily its lowest index
+            "explicit_bonds": draw(st.integers(0, 3)) == 0}
 
 
 def build(case):
@@ -191,10 +194,34 @@ def run_case(case):
                 anchors = [max(mols_sets, key=len)]
             else:
                 anchors = traj.topology.guess_anchor_molecules()
+        skw = {}
+        if case.get("explicit_bonds") and bonds and op != "image-nowhole":
+            rng_b = np.random.Generator(np.random.PCG64(case["seed"] + 31))
+            adj = {}
+            for a_, b_ in bonds:
+                adj.setdefault(a_, []).append(b_)
+                adj.setdefault(b_, []).append(a_)
+            order, seen = [], set()
+            for idx in mol_atoms:
+                members = [i_ for i_ in idx if i_ in adj]
+                if not members:
+                    continue
+                root = members[int(rng_b.integers(0, len(members)))]
+                seen.add(root)
+                queue = [root]
+                while queue:
+                    u = queue.pop(0)
+                    for v in adj[u]:
+                        if v not in seen:
+                            seen.add(v)
+                            order.append((u, v))
+                            queue.append(v)
+            skw["sorted_bonds"] = np.array(order, dtype=np.int32).reshape(-1, 2)
+            labels.append("explicit-sorted-bonds")
         if op == "whole":
-            out = traj.make_molecules_whole(inplace=inplace)
+            out = traj.make_molecules_whole(inplace=inplace, **skw)
         else:
-            kw = {}
+            kw = dict(skw)
             if case["anchors"] == "explicit":
                 kw["anchor_molecules"] = anchors
             out = traj.image_molecules(inplace=inplace, make_whole=(op == "image"), **kw)
